@@ -44,6 +44,23 @@ theorem C19_eval_on_frame (lv : LevelVersion) (p : Pod) (h : p.hostUsers ≠ som
     evalPodModel Generated.tables true lv p = evalPodModel Generated.tables false lv p := by
   simp only [evalPodModel, C19_on_frame _ _ p h]
 
+/-- **Opt-in means the administrator's last word**: whatever was set before, after `RelaxPolicyForUserNamespacePods(b)` the
+    switch is `b` — the setting is not a count of requests, and earlier calls leave nothing behind. -/
+theorem C19_switch_last_call (init : Bool) (calls : List Bool) (b : Bool) : switchAfter init (calls ++ [b]) = b :=
+  switchAfter_append init calls b
+
+/-- never opted in: the switch is off (the process starts with it off) -/
+theorem C19_switch_initial : switchAfter false [] = false := rfl
+
+/-- so, once the administrator's last call was `false`, `hostUsers` has no effect on any evaluation, whatever the history -/
+theorem C19_off_after_history (calls : List Bool) (lv : LevelVersion) (p : Pod) (h : Option Bool) :
+    evalPodModel Generated.tables (switchAfter false (calls ++ [false])) lv { p with hostUsers := h } =
+    evalPodModel Generated.tables (switchAfter false (calls ++ [false])) lv p := by
+  rw [switchAfter_append]; exact C19_eval_off lv p h
+
+/-- non-vacuity: set twice, then unset: off -/
+example : switchAfter false [true, true, false] = false := by decide
+
 /-- non-vacuity: a pod on which the relaxation changes a verdict -/
 example : (runRev Generated.tables false .runAsUser23 { hostUsers := some false, sc := some { runAsUser := some 0 } }).allowed = false ∧
           (runRev Generated.tables true .runAsUser23 { hostUsers := some false, sc := some { runAsUser := some 0 } }).allowed = true := by decide
@@ -52,7 +69,18 @@ example : (runRev Generated.tables false .runAsUser23 { hostUsers := some false,
 theorem C19_only_three_read_hostUsers :
     Expected.readsHostUsers Generated.readSets = [b!"procMount", b!"runAsNonRoot", b!"runAsUser"] := by decide
 
+/-- tie obligation (F9): in package `policy` the only write to long-lived state outside init is the setter storing its
+    argument into the atomic.Bool (no counter, no compare-and-swap, no second variable) -/
+theorem C19_switch_is_plain_store :
+    Generated.stateWrites.filter (fun w => w.1 = b!"policy") =
+      [(b!"policy", b!"policy.RelaxPolicyForUserNamespacePods", b!"call atomic.Bool).Store on shared:relaxPolicyForUserNamespacePods")] := by
+  decide
+
 #print axioms C19_off
+#print axioms C19_switch_last_call
+#print axioms C19_switch_initial
+#print axioms C19_off_after_history
+#print axioms C19_switch_is_plain_store
 #print axioms C19_on_frame
 #print axioms C19_on_three_waived
 #print axioms C19_on_others
